@@ -122,6 +122,8 @@ type Event struct {
 	// MAct / SAct: active states of the network machine (Is) and of the source (probe)
 	MAct []string `json:"mact,omitempty"`
 	SAct []string `json:"sact,omitempty"`
+	// MTk: the mirror's ticks read state by state (Tick / Clock), probe only
+	MTk []uint64 `json:"mtk,omitempty"`
 	// Open: Client.Sync calls entered and not returned (probe)
 	Open int `json:"open,omitempty"`
 	// goroutine-independent wall time in us since world start (debug only)
